@@ -6,8 +6,12 @@ CLAIMED = {
  # id: (level text, level note)
  "C07": ("Deductive proof over the real code: AreDistinctHeadersContradicting's result equals the LIP-0014 contradiction relation (spec function transcribed from the LIP) for all 2^192 header field combinations and all generator-equality outcomes; symmetry and different-generator lemmas are proved over that spec, hence over the code; fork-choice predicates equal their LIP-0014 definitions. Tests sample a few dozen header pairs; the obligations quantify over all of them.",
          "Interface getters are assumed pure (deterministic in the receiver); bytes.Equal is an assumed symmetric predicate on slice identities; the 'never flagged for an honest generator / always flagged inside the window' history part is only decided per call."),
+ "C20": ("Deductive proof of the lockset and ownership discipline on the real code: blockCache.last/get/getByHeight/push/pop acquire and release the cache mutex on every path, never re-acquire it while held (recursive read locking is a precondition violation of the RWMutex contract), and meet functional contracts over both indexes; a staged-store prefix view shares cache, database and the same mutex as its parent; every goroutine started in a loop by the bulk lookups (headers by ids / heights, transactions by ids, blocks by range) writes only its own slice slot (write-set ownership decided on the SSA of the closure).",
+         "Cross-goroutine interleavings, lock ordering between different mutexes, channel sends under a lock (EventEmitter) and the certificate pool are not decided; ownership obligations are syntactic frame conditions (index must be an injective expression of a per-iteration variable or the write must follow a Lock in the closure); one known finding (blockSyncer.Sync peer fan-out) is listed in known-findings.json."),
  "C04": ("Deductive proof over the real code of the guards that make finality irreversible: deleteBlock succeeds only for a block strictly above the stored finalized height and checks this before any write; the finalized height handed to Chain.AddBlock by processValidated equals max(stored, maxHeightPrecommitted) (never lower), is staged in the same batch as the block, and the finalize event is published exactly when the height is raised; rejected blocks perform no database write and publish nothing. All paths of these functions, all argument values.",
          "Callees are used through contracts: liskbft API reads, DataAccess reads, diffdb commit/revert, ABI bridge, pebble batch write, event emitter are trusted stubs with ghost call records (listed in evidence); the induction 'guards hold at every step => finalized prefix never changes' over histories is not mechanised; sync callers of deleteBlock are not yet under contract."),
+ "C05": ("Deductive proof over the real code of the pieces that make block removal an exact inverse: Commit's returned diff records, for every deleted and updated key, the value the key had in the database before the block (its initial value, never an intermediate one) and lists as added only keys that were absent; Commit writes exactly the staged state; deleteBlock reverts the consensus-store diff into the same batch that removes the block, only above the finalized height, in one database write; Chain.RemoveBlock never removes genesis and writes nothing on error; the block cache's push/pop keep the id index and the height index in step (a popped block disappears from both).",
+         "RevertDiff's byte-for-byte inverse lemma over all stores, key-level symmetry of saveBlock/removeBlock (trusted stubs), ABI revert and temp-block retention are not yet under contract; completeness of the diff lists (every touched key appears) is not decided (quantifier alternation)."),
  "C06": ("Deductive proof over the real code of aggregate-commit acceptance: verifyAggregateCommit returns nil only if the commit is empty at maxHeightCertified, or both parts are non-empty with maxHeightCertified < height <= maxHeightPrecommitted, height <= next-BFT-parameter height - 1 when one exists, and the weighted aggregate verification was performed on the node's own block certificate of that height with that height's certificate threshold and with each weight bound to its BLS key; BLSVerifyWeightedAggSig returns true only if the weights of the set bits reach the threshold (loop invariant over a recursive sum spec) and never indexes outside the bitmap; Bits.read/write bit semantics.",
          "BLS pairing primitives (blst, cgo) are uninterpreted and assumed not to panic; sort.Slice is assumed to permute in place and sort by the comparator; liskbft API reads and BLS-key uniqueness inside a parameter set are assumed (trusted stubs); GetAggregateCommit self-consistency and the single-commit pool admission path are not yet under contract."),
  "C12": ("Deductive proof over the real code of the staged store against an abstract view (cache entry if present, else database): Database.Get/Has return exactly the view of the prefixed key and leave every key's view unchanged; Set/Del change exactly that key's view; the cache primitives (add/cache/set/get/del/existAny) meet their entry-level specifications; cacheValue.copy and cacheDB.copy are deep, alias-free copies that keep 'absent in database' distinct from 'empty value'; Snapshot stores such a copy under a fresh id, RestoreSnapshot installs exactly that snapshot (or changes nothing for an unknown id); Commit writes exactly the staged final state of every cached key and touches no other key (map iteration with a visited-set invariant). Keys are compared by byte-string content.",
